@@ -197,6 +197,155 @@ GlyphVals ==
     GC(<<0, 0, 10, 10>>, <<Cmp(2 + 256, 1, 0, 0, <<>>)>>, Str(65536, 3))>>                  \* refused
 
 ---------------------------------------------------------------------------
+\* Positional families: for every structure with per-element flags, per-element lengths or a
+\* count-dependent header the POSITION of the feature among the elements is varied (first / middle /
+\* last / several / none), one dimension at a time around a base value.
+Bit(m, i) == (m \div Pow2i(i - 1)) % 2 = 1           \* element i is selected by mask m
+
+\* -- hmtx: every split of 1..3 long metrics and 0..2 trailing bearings
+HmtxPos == Cat([a \in 1 .. 3 |-> [b \in 1 .. 3 |->
+              [hm |-> [i \in 1 .. a |-> <<100 * i, -i>>], lsb |-> [j \in 1 .. (b - 1) |-> 7 * j]]]])
+
+\* -- loca: an odd offset (short: refused; long: stored), the largest short offset and the first one
+\* that does not fit, each in every position
+LocaAt(fmt, p, x) == [fmt |-> fmt, offs |-> [i \in 1 .. 4 |-> IF i = p THEN x ELSE 10 * (i - 1)]]
+LocaPos == Cat([p \in 1 .. 4 |-> <<LocaAt(0, p, 10 * (p - 1) + 1), LocaAt(1, p, 10 * (p - 1) + 1),
+                                   LocaAt(0, p, 131070), LocaAt(0, p, 131072), LocaAt(1, p, 131072)>>])
+
+\* -- OS/2: one tail at its extreme values at a time (all tails present)
+Os2Pos == LET b == Os2Ver(Os2Base0, 5)  m == Os2TailsMax(b) IN
+          <<[b EXCEPT !.v0 = m.v0], [b EXCEPT !.v1 = m.v1], [b EXCEPT !.v2 = m.v2], [b EXCEPT !.v5 = m.v5]>>
+
+\* -- post 2.0: names inside / outside the standard set in every position, the last standard index
+\* (257) and the first custom one (258) in every position, custom names out of order, shared, with a
+\* gap, empty and 255 / 256 bytes long in every position
+PostIdx(ix, nms) == [PostBase EXCEPT !.version = PostV2, !.idx = ix, !.names = nms]
+PN1 == <<97, 46, 115, 99>>
+PN2 == <<98>>
+PN3 == Str(3, 64)
+At3(p, x, d) == [i \in 1 .. 3 |-> IF i = p THEN x ELSE d]
+PostPos ==
+  Cat([p \in 1 .. 3 |->
+     <<PostIdx(At3(p, 258, 36), <<PN1>>), PostIdx(At3(p, 257, 36), <<>>), PostIdx(At3(p, 36, 258), <<PN1>>),
+       PostIdx(<<258, 259, 260>>, [i \in 1 .. 3 |-> IF i = p THEN <<>> ELSE <<PN1, PN2, PN3>>[i]]),
+       PostIdx(<<258, 259, 260>>, [i \in 1 .. 3 |-> IF i = p THEN Str(255, p) ELSE <<PN1, PN2, PN3>>[i]]),
+       PostIdx(<<258, 259, 260>>, [i \in 1 .. 3 |-> IF i = p THEN Str(256, p) ELSE <<PN1, PN2, PN3>>[i]])>>])   \* refused
+  \o <<PostIdx(<<260, 259, 258>>, <<PN1, PN2, PN3>>), PostIdx(<<259, 36, 258>>, <<PN1, PN2>>),
+       PostIdx(<<258, 258, 258>>, <<PN1>>), PostIdx(<<0, 260, 0>>, <<PN1, PN2, PN3>>),
+       PostIdx(<<36, 37, 38>>, <<>>), PostIdx(<<258>>, <<<<>>>>)>>
+
+\* -- name: strings of several platform / encoding / language triples, the empty and a long string in
+\* every position, language-tag records (format 1) with the empty tag first / last
+NameEncs == <<<<0, 3, 0>>, <<0, 4, 0>>, <<1, 0, 0>>, <<1, 1, 11>>, <<2, 1, 0>>, <<3, 0, 1033>>, <<3, 1, 1033>>, <<3, 10, 1033>>>>
+NameStrs3 == <<<<0, 70, 0, 111>>, <<70, 111, 111, 138, 255>>, <<0, 1, 244, 0, 0, 0, 0, 65>>>>
+NameRec3(ss) == <<NR(3, 1, 1033, 1, ss[1]), NR(1, 0, 0, 2, ss[2]), NR(0, 4, 0, 3, ss[3])>>
+NTag1 == <<0, 101, 0, 110>>
+NTag2 == <<0, 115, 0, 114, 0, 45, 0, 76>>
+NamePos ==
+  [e \in 1 .. Len(NameEncs) |-> [recs |-> <<NR(NameEncs[e][1], NameEncs[e][2], NameEncs[e][3], 4, Str(2 * e, 40 + e))>>, tags |-> <<>>]]
+  \o Cat([p \in 1 .. 3 |->
+       <<[recs |-> NameRec3(At3(p, <<>>, <<9>>)), tags |-> <<>>],
+         [recs |-> NameRec3([i \in 1 .. 3 |-> IF i = p THEN <<>> ELSE NameStrs3[i]]), tags |-> <<>>],
+         [recs |-> NameRec3([i \in 1 .. 3 |-> IF i = p THEN <<>> ELSE NameStrs3[i]]), tags |-> <<NTag1, NTag2>>],
+         [recs |-> NameRec3([i \in 1 .. 3 |-> IF i = p THEN Str(300, p) ELSE NameStrs3[i]]), tags |-> <<NTag1>>],
+         [recs |-> NameRec3([i \in 1 .. 3 |-> IF i = p THEN NameStrs3[1] ELSE NameStrs3[2]]), tags |-> <<>>]>>])
+  \o Cat([r \in 1 .. 2 |-> LET recs == IF r = 1 THEN <<>> ELSE <<NR(3, 1, 32768, 1, NameStrs3[1]), NR(3, 1, 32769, 2, NameStrs3[2]),
+                                                                   NR(3, 1, 32770, 3, NameStrs3[3])>> IN
+       <<[recs |-> recs, tags |-> <<NTag1>>], [recs |-> recs, tags |-> <<<<>>, NTag2>>], [recs |-> recs, tags |-> <<NTag1, <<>>>>],
+         [recs |-> recs, tags |-> <<NTag1, NTag2, <<0, 102>>>>], [recs |-> recs, tags |-> <<<<>>>>]>>])
+
+\* -- cmap format 4: the binary-search header depends on the segment count (every count up to 17, the
+\* neighbours of the powers of two); the segment that maps through glyphIdArray (idRangeOffset # 0) is
+\* the first / a middle / the last real one / several / the final 0xFFFF one
+SegN(n) == Seg4([i \in 1 .. n |-> IF i = n THEN 65535 ELSE 7 * i], [i \in 1 .. n |-> IF i = n THEN 65535 ELSE 7 * i + 5],
+                [i \in 1 .. n |-> IF i = n THEN 1 ELSE i - 40], [i \in 1 .. n |-> 0], <<>>)
+CmapSegCounts == <<2, 3, 4, 5, 6, 7, 8, 9, 10, 11, 12, 13, 14, 15, 16, 17, 31, 32, 33, 63, 64, 65, 127, 128, 129, 255, 256, 257,
+                   1023, 1024, 1025>>
+                 \o (IF Thorough THEN <<511, 512, 513, 2047, 2048, 2049, 4095, 4096, 4097, 8189>> ELSE <<>>)
+RoLens == <<9, 6, 3>>
+RoStart(m, i) == SumSeq([j \in 1 .. (i - 1) |-> IF Bit(m, j) THEN RoLens[j] ELSE 0])
+CmapRoAt(m) ==
+  Seg4(<<32, 100, 300, 65535>>, <<40, 105, 302, 65535>>,
+       [i \in 1 .. 4 |-> IF i = 4 THEN 1 ELSE IF Bit(m, i) THEN 0 ELSE <<-29, 7, -32768>>[i]],
+       [i \in 1 .. 4 |-> IF i < 4 /\ Bit(m, i) THEN 2 * (4 - (i - 1)) + 2 * RoStart(m, i) ELSE 0],
+       Cat([i \in 1 .. 3 |-> IF Bit(m, i) THEN [k \in 1 .. RoLens[i] |-> 100 * i + k] ELSE <<>>]))
+CmapSubPos ==
+  [i \in 1 .. Len(CmapSegCounts) |-> SegN(CmapSegCounts[i])]
+  \o [m \in 1 .. 7 |-> CmapRoAt(m)]
+  \o <<Seg4(<<32, 65535>>, <<40, 65535>>, <<-29, 0>>, <<0, 2>>, <<0>>),
+       [fmt |-> 6, lang |-> 0, first |-> 65535, gids |-> <<7>>], [fmt |-> 6, lang |-> 0, first |-> 0, gids |-> <<0, 0, 9>>],
+       [fmt |-> 12, lang |-> 0, groups |-> <<<<0, 0, 1>>, <<65, 90, 2>>, <<1114111, 1114111, 65535>>>>],
+       [fmt |-> 10, lang |-> 0, start |-> 1114111, gids |-> <<1>>]>>
+\* the cmap table: subtables of different formats and sizes in every order (offsets are prefix sums)
+CmapRec(p, e, sub) == [p |-> p, e |-> e, sub |-> sub]
+CmapTblPos ==
+  LET s0 == CmapSubVals[1]  s4 == CmapSubVals[5]  s6 == CmapSubVals[12]  s12 == CmapSubVals[19] IN
+  <<[recs |-> <<CmapRec(1, 0, s0), CmapRec(3, 1, s4), CmapRec(0, 3, s6)>>],
+    [recs |-> <<CmapRec(0, 3, s6), CmapRec(1, 0, s0), CmapRec(3, 1, s4)>>],
+    [recs |-> <<CmapRec(3, 1, s4), CmapRec(0, 3, s6), CmapRec(1, 0, s0)>>],
+    [recs |-> <<CmapRec(3, 10, s12), CmapRec(3, 1, s4)>>], [recs |-> <<CmapRec(3, 1, s4), CmapRec(3, 10, s12)>>],
+    [recs |-> <<CmapRec(3, 1, s4), CmapRec(0, 3, s4)>>]>>
+
+\* -- composite glyphs: 1-3 components; WE_HAVE_INSTRUCTIONS (256) on every subset of the components, with
+\* and without instruction bytes; each transform kind (8 / 64 / 128), each argument width and signedness
+\* (bits 1, 2) and each of the other defined bits in every position.  MORE_COMPONENTS (32) is set on
+\* every component but the last.
+CArg(f, i, w) ==
+  IF HasBit(f, 1) THEN (IF HasBit(f, 2) THEN (IF w = 1 THEN -300 - i ELSE 300 + i) ELSE (IF w = 1 THEN 300 + i ELSE 40000 + i))
+  ELSE (IF HasBit(f, 2) THEN (IF w = 1 THEN -5 - i ELSE 100 + i) ELSE (IF w = 1 THEN 200 + i ELSE i))
+CompOf(f, i, more) == Cmp(f + (IF more THEN 32 ELSE 0), 10 + i, CArg(f, i, 1), CArg(f, i, 2),
+                          [j \in 1 .. CompScaleLen(f) |-> 4096 * j + i - 20000])
+CompsOf(fs) == [i \in 1 .. Len(fs) |-> CompOf(fs[i], i, i < Len(fs))]
+GCf(fs, instr) == GC(<<-5, -6, 700, 800>>, CompsOf(fs), instr)
+Scales == <<8, 64, 128>>
+GlyphInstrPos ==
+  Cat([n \in 1 .. 3 |-> Cat([m1 \in 1 .. Pow2i(n) |->
+     LET fs == [i \in 1 .. n |-> 2 + (IF Bit(m1 - 1, i) THEN 256 ELSE 0)] IN
+     IF m1 = 1 THEN <<GCf(fs, <<>>)>> ELSE <<GCf(fs, <<64, 65, 66>>), GCf(fs, <<>>)>>])])
+GlyphCompPos ==
+  Cat([n1 \in 1 .. 2 |-> LET n == n1 + 1 IN
+        Cat([p \in 1 .. n |-> [k \in 1 .. 3 |-> GCf([i \in 1 .. n |-> 3 + (IF i = p THEN Scales[k] ELSE 0)], <<>>)]])])
+  \o [r \in 1 .. 3 |-> GCf([i \in 1 .. 3 |-> 2 + Scales[((i + r) % 3) + 1]], <<>>)]
+  \o Cat([p \in 1 .. 3 |-> [w \in 1 .. 4 |-> GCf([i \in 1 .. 3 |-> IF i = p THEN w - 1 ELSE (IF w = 3 THEN 3 ELSE 2)], <<>>)]])
+  \o Cat([p \in 1 .. 3 |-> [b \in 1 .. 5 |-> GCf([i \in 1 .. 3 |-> 2 + (IF i = p THEN <<4, 512, 1024, 2048, 4096>>[b] ELSE 0)], <<>>)]])
+  \* the instruction flag away from the last component together with components of different sizes
+  \o <<GCf(<<2 + 256 + 128, 3 + 64, 8>>, <<1, 2, 3>>), GCf(<<1 + 8, 2 + 256, 3 + 128>>, <<1>>),
+       GCf(<<3 + 256 + 64, 0>>, Str(300, 1)), GCf(<<2 + 256, 2, 2>>, Str(255, 2)), GCf(<<2, 2 + 256, 2>>, Str(256, 3))>>
+
+\* -- simple glyphs (through the writer): ON_CURVE, the extreme coordinates and the contour ends in every
+\* position; instruction lengths around 255 / 256
+GSn(ends, instr, pts) == GS(<<-10, -20, 100, 100>>, ends, instr, pts)
+SimplePos ==
+  Cat([p \in 1 .. 3 |->
+     <<GSn(<<2>>, <<>>, [i \in 1 .. 3 |-> Pt(IF i = p THEN 1 ELSE 0, 10 * i, 20 * i)]),
+       GSn(<<2>>, <<>>, [i \in 1 .. 3 |-> Pt(IF i = p THEN 0 ELSE 1, 10 * i, 20 * i)]),
+       GSn(<<2>>, <<7>>, [i \in 1 .. 3 |-> Pt(1, IF i = p THEN 32767 ELSE 0, IF i = p THEN 0 ELSE -1)]),
+       GSn(<<2>>, <<7>>, [i \in 1 .. 3 |-> Pt(1, IF i = p THEN -32768 ELSE -1, IF i = p THEN 32767 ELSE 0)]),
+       GSn(<<<<1, 3, 4>>, <<0, 2, 4>>, <<0, 1, 4>>>>[p], <<1, 2>>, [i \in 1 .. 5 |-> Pt(i % 2, i, -i)])>>])
+  \o <<GSn(<<0>>, Str(255, 0), <<Pt(1, 1, 1)>>), GSn(<<0>>, Str(256, 0), <<Pt(1, 1, 1)>>), GSn(<<0, 1, 2>>, <<>>, [i \in 1 .. 3 |-> Pt(1, i, i)])>>
+
+\* -- simple glyphs in every packing a reader must accept (kind "glyphp": the packed bytes are parsed,
+\* written and parsed again): each flag / coordinate form in every position, REPEAT runs at the start, at the
+\* end, over the whole glyph, of length zero, and around the 255 limit of the repeat count
+FromDeltas(ds) == [i \in 1 .. Len(ds) |-> Pt(ds[i][1], SumSeq([j \in 1 .. i |-> ds[j][2]]), SumSeq([j \in 1 .. i |-> ds[j][3]]))]
+GP(ends, instr, ds) == GS(<<-1, -2, 3, 4>>, ends, instr, FromDeltas(ds))
+PW == <<1, 300, -300>>
+PForms == <<<<1 + 2 + 16, 200, -300>>, <<1 + 2, -200, -300>>, <<1 + 2 + 16, 255, 7>>, <<1 + 2, -255, 7>>, <<1 + 2, 0, 5>>,
+            <<1 + 4 + 32, 300, 255>>, <<1 + 4, 300, -255>>, <<4 + 32, 300, 0>>,
+            <<1 + 16, 0, -300>>, <<1 + 32, 300, 0>>, <<1 + 16 + 32, 0, 0>>, <<2 + 4 + 16 + 32, 1, 1>>, <<2 + 4, -1, -1>>,
+            <<0, 300, -300>>, <<1 + 2 + 32, -9, 0>>, <<1 + 4 + 16, 0, -9>>,
+            <<1 + 8, 256, -256>>, <<8 + 2 + 4 + 16 + 32, 3, 4>>>>
+PRep == <<1 + 8 + 2 + 4 + 16 + 32, 1, 1>>
+GlyphPackedVals ==
+  Cat([f \in 1 .. Len(PForms) |-> [p \in 1 .. 3 |-> GP(<<2>>, <<>>, At3(p, PForms[f], PW))]])
+  \o <<GP(<<2>>, <<>>, <<PRep, PRep, PRep>>), GP(<<2>>, <<>>, <<PRep, PRep, PW>>), GP(<<2>>, <<>>, <<PW, PRep, PRep>>),
+       GP(<<1, 3>>, <<176, 0>>, <<PRep, PW, PRep, PRep>>), GP(<<0, 3>>, <<1, 2, 3>>, <<PW, PW, PForms[9], PForms[9]>>),
+       GP(<<>>, <<>>, <<>>), GP(<<>>, <<5>>, <<>>), GP(<<0>>, <<>>, <<PRep>>),
+       GP(<<4>>, <<>>, <<PW, <<9, 300, -300>>, <<9, 300, -300>>, <<9, 1, 1>>, PW>>)>>
+  \o [n \in 1 .. 4 |-> GP(<<253 + n>>, <<>>, [i \in 1 .. (254 + n) |-> PRep])]           \* 255 .. 258 points, one flag
+  \o <<GP(<<299>>, <<>>, [i \in 1 .. 300 |-> IF i <= 20 THEN PW ELSE PRep])>>
+
+---------------------------------------------------------------------------
 \* CFF
 IntEdges == {0, 107, 108, 1131, 1132, 32767, 32768, 65535, 65536, 8388607, 8388608, 2147483645}
 IntSet == (UNION {{e - 1, e, e + 1, -e - 1, -e, -e + 1} : e \in IntEdges})
@@ -279,16 +428,86 @@ IvsVals ==
                 [items |-> 1, wdc |-> 32768 + 1, ris |-> <<1>>, deltas |-> <<0, 1, 2, 3>>]>>],
     [axes |-> 1, regions |-> <<>>, data |-> <<[items |-> 3, wdc |-> 0, ris |-> <<>>, deltas |-> <<>>]>>]>>
 
+\* -- positional families of the CFF structures
+\* DICT: a default-valued entry first / in the middle / last / alone, a 48-operand entry first / last, a real
+\* operand first / last among the operands
+DND1(k) == IF k = "top" THEN E(0, <<I(391)>>) ELSE E(10, <<I(80)>>)
+DND2(k) == IF k = "top" THEN E(17, <<I(1000)>>) ELSE E(11, <<I(90)>>)
+DDef(k) == IF k = "top" THEN E(3078, <<I(2)>>) ELSE E(3082, <<I(7)>>)
+Ops48 == [i \in 1 .. 48 |-> I(i * 700 - 9000)]
+DictPos ==
+  Cat([kk \in 1 .. 2 |-> LET k == <<"top", "priv">>[kk] IN
+     <<DV(k, <<DDef(k), DND1(k), DND2(k)>>, 1), DV(k, <<DND1(k), DDef(k), DND2(k)>>, 1), DV(k, <<DND1(k), DND2(k), DDef(k)>>, 1),
+       DV(k, <<DDef(k)>>, 1), DV(k, <<DDef(k), DND1(k), DDef(k)>>, 3)>>])
+  \o <<DV("top", <<E(14, Ops48), DND1("top")>>, 1), DV("top", <<DND1("top"), E(14, Ops48)>>, 1),
+       DV("priv", <<E(6, Ops48), DND1("priv")>>, 1), DV("priv", <<DND1("priv"), E(7, Ops48)>>, 1),
+       DV("top", <<E(3079, <<Rl(<<160, 1, 255>>), I(0), I(0), I(1), I(0), I(0)>>)>>, 1),
+       DV("top", <<E(3079, <<I(1), I(0), I(0), I(1), I(0), Rl(<<160, 1, 255>>)>>)>>, 1),
+       DV("priv", <<E(6, <<Rl(<<31>>), I(20), I(450), Rl(<<226, 162, 95>>)>>), E(9, <<Rl(<<10, 20, 5, 65, 63>>)>>)>>, 1)>>
+
+\* INDEX: the empty object first / last / everywhere, also next to the offSize 1 / 2 edge
+IndexPosLens == <<<<0, 3, 2>>, <<3, 2, 0>>, <<0, 3, 0>>, <<0, 0>>, <<0, 0, 0>>, <<0, 254>>, <<254, 0>>, <<0, 255>>, <<255, 0>>, <<1, 1, 1, 1>>>>
+IndexPos == Cat([c \in 1 .. 2 |-> Cat([i \in 1 .. Len(IndexPosLens) |->
+              LET mn == MinOffSize(1 + SumSeq(IndexPosLens[i])) IN
+              <<IV(IndexPosLens[i], mn, c = 2), IV(IndexPosLens[i], mn + 1, c = 2)>>])])
+IndexOwnedPos == [i \in 1 .. Len(IndexPosLens) |-> [lens |-> IndexPosLens[i]]]
+
+\* charset: nLeft at its edges (format 1: 0 / 255; format 2: 0 / 255 / 256 / 65535) in every position
+RangesAt(p, x, d) == [i \in 1 .. 3 |-> <<1000 * i, IF i = p THEN x ELSE d>>]
+CharsetPos ==
+  Cat([p \in 1 .. 3 |->
+     <<[fmt |-> 1, ranges |-> RangesAt(p, 255, 0)], [fmt |-> 1, ranges |-> RangesAt(p, 0, 255)], [fmt |-> 1, ranges |-> RangesAt(p, 254, 1)],
+       [fmt |-> 2, ranges |-> RangesAt(p, 255, 0)], [fmt |-> 2, ranges |-> RangesAt(p, 256, 0)], [fmt |-> 2, ranges |-> RangesAt(p, 0, 256)],
+       [fmt |-> 2, ranges |-> RangesAt(p, 65535, 1)], [fmt |-> 0, sids |-> At3(p, 65535, 0)]>>])
+  \o <<[fmt |-> 1, ranges |-> <<<<1, 255>>, <<257, 0>>>>], [fmt |-> 2, ranges |-> <<<<1, 255>>, <<257, 0>>>>],
+       [fmt |-> 0, sids |-> <<391>>], [fmt |-> 0, sids |-> [i \in 1 .. 256 |-> i]]>>
+\* encoding: nLeft / codes at their edges in every position
+EncodingPos ==
+  Cat([p \in 1 .. 3 |->
+     <<[fmt |-> 1, ranges |-> [i \in 1 .. 3 |-> <<40 * i, IF i = p THEN 255 ELSE 0>>]],
+       [fmt |-> 1, ranges |-> [i \in 1 .. 3 |-> <<IF i = p THEN 255 ELSE 0, i>>]],
+       [fmt |-> 0, codes |-> At3(p, 255, 0)], [fmt |-> 0, codes |-> At3(p, 0, 65)]>>])
+\* FDSelect: the change of font DICT right after the first glyph / right before the last / both; the largest
+\* font DICT index first / last; format 0 alike
+FdSelectPos ==
+  <<[fmt |-> 3, ranges |-> <<<<0, 0>>, <<1, 1>>>>, sentinel |-> 10], [fmt |-> 3, ranges |-> <<<<0, 0>>, <<9, 1>>>>, sentinel |-> 10],
+    [fmt |-> 3, ranges |-> <<<<0, 1>>, <<1, 0>>, <<9, 1>>>>, sentinel |-> 10],
+    [fmt |-> 3, ranges |-> <<<<0, 255>>, <<5, 0>>, <<7, 0>>>>, sentinel |-> 10], [fmt |-> 3, ranges |-> <<<<0, 0>>, <<5, 0>>, <<7, 255>>>>, sentinel |-> 10],
+    [fmt |-> 3, ranges |-> <<<<0, 0>>, <<5, 255>>, <<7, 0>>>>, sentinel |-> 8], [fmt |-> 3, ranges |-> <<<<0, 7>>>>, sentinel |-> 65535],
+    [fmt |-> 3, ranges |-> <<<<0, 0>>, <<65534, 1>>>>, sentinel |-> 65535],
+    [fmt |-> 0, fds |-> <<1, 0, 0, 0>>], [fmt |-> 0, fds |-> <<0, 1, 0, 0>>], [fmt |-> 0, fds |-> <<0, 0, 0, 1>>],
+    [fmt |-> 0, fds |-> <<255, 0, 0>>], [fmt |-> 0, fds |-> <<0, 0, 255>>], [fmt |-> 0, fds |-> <<7>>]>>
+
+\* item variation store: every word-delta count 0 .. n of n = 3 regions, short and long words; the long /
+\* the empty sub-table first / in the middle / last
+IvsRegs3 == <<<<<<-16384, -16384, 0>>>>, <<<<0, 8192, 16384>>>>, <<<<-1, 1, 32767>>>>>>
+IvsD(n, w, long, items) ==
+  LET wdc == w + (IF long THEN 32768 ELSE 0)
+      ris == [j \in 1 .. n |-> n - j]
+      rl  == IvsRowLen([wdc |-> wdc, ris |-> ris]) IN
+  [items |-> items, wdc |-> wdc, ris |-> ris, deltas |-> [i \in 1 .. (items * rl) |-> (7 * i + w) % 256]]
+IvsPos ==
+  Cat([w \in 1 .. 4 |-> <<[axes |-> 1, regions |-> IvsRegs3, data |-> <<IvsD(3, w - 1, FALSE, 2)>>],
+                          [axes |-> 1, regions |-> IvsRegs3, data |-> <<IvsD(3, w - 1, TRUE, 2)>>]>>])
+  \o [p \in 1 .. 3 |-> [axes |-> 1, regions |-> IvsRegs3,
+                        data |-> [i \in 1 .. 3 |-> IF i = p THEN IvsD(2, 1, TRUE, 2) ELSE IvsD(i, 1, FALSE, i)]]]
+  \o [p \in 1 .. 3 |-> [axes |-> 1, regions |-> IvsRegs3,
+                        data |-> [i \in 1 .. 3 |-> IF i = p THEN IvsD(0, 0, FALSE, 0) ELSE IvsD(3, i, FALSE, 1)]]]
+
 ---------------------------------------------------------------------------
-Kinds == <<"head", "hhea", "maxp", "hmtx", "cvt", "loca", "os2", "post", "name", "cmapsub", "cmap", "glyph",
+Kinds == <<"head", "hhea", "maxp", "hmtx", "cvt", "loca", "os2", "post", "name", "cmapsub", "cmap", "glyph", "glyphp",
            "cffint", "dict", "index", "indexo", "charset", "encoding", "fdselect", "ivs">>
+\* the positional families are appended: the indexes of the older values (and the case ids) do not move
 Vals(k) ==
-  CASE k = "head" -> HeadVals [] k = "hhea" -> HheaVals [] k = "maxp" -> MaxpVals [] k = "hmtx" -> HmtxVals
-    [] k = "cvt" -> CvtVals [] k = "loca" -> LocaVals [] k = "os2" -> Os2Vals [] k = "post" -> PostVals
-    [] k = "name" -> NameVals [] k = "cmapsub" -> CmapSubVals \o <<CmapSeg32768>> [] k = "cmap" -> CmapVals
-    [] k = "glyph" -> GlyphVals [] k = "cffint" -> CffIntVals [] k = "dict" -> DictVals [] k = "index" -> IndexVals
-    [] k = "indexo" -> IndexOwnedVals [] k = "charset" -> CharsetVals [] k = "encoding" -> EncodingVals
-    [] k = "fdselect" -> FdSelectVals [] k = "ivs" -> IvsVals
+  CASE k = "head" -> HeadVals [] k = "hhea" -> HheaVals [] k = "maxp" -> MaxpVals [] k = "hmtx" -> HmtxVals \o HmtxPos
+    [] k = "cvt" -> CvtVals [] k = "loca" -> LocaVals \o LocaPos [] k = "os2" -> Os2Vals \o Os2Pos
+    [] k = "post" -> PostVals \o PostPos [] k = "name" -> NameVals \o NamePos
+    [] k = "cmapsub" -> CmapSubVals \o <<CmapSeg32768>> \o CmapSubPos [] k = "cmap" -> CmapVals \o CmapTblPos
+    [] k = "glyph" -> GlyphVals \o GlyphInstrPos \o GlyphCompPos \o SimplePos [] k = "glyphp" -> GlyphPackedVals
+    [] k = "cffint" -> CffIntVals [] k = "dict" -> DictVals \o DictPos [] k = "index" -> IndexVals \o IndexPos
+    [] k = "indexo" -> IndexOwnedVals \o IndexOwnedPos [] k = "charset" -> CharsetVals \o CharsetPos
+    [] k = "encoding" -> EncodingVals \o EncodingPos [] k = "fdselect" -> FdSelectVals \o FdSelectPos
+    [] k = "ivs" -> IvsVals \o IvsPos
 NVals == [i \in 1 .. Len(Kinds) |-> Len(Vals(Kinds[i]))]
 
 Init == \E i \in 1 .. Len(Kinds) : kind = Kinds[i] /\ idx \in 1 .. NVals[i]
@@ -316,6 +535,9 @@ Case ==
   IF kind \in TableKinds THEN
     [k |-> kind, id |-> idx, v |-> v,
      exp |-> IF TRefuse(kind, v) THEN ErrExp ELSE OkExp(TEnc(kind, v), TNormalise(kind, v))]
+  ELSE IF kind = "glyphp" THEN      \* the packed bytes are parsed (back1), written (bytes) and parsed again (back)
+    [k |-> kind, id |-> idx, v |-> v, src |-> EncGlyphPacked(v),
+     exp |-> [res |-> "Ok", bytes |-> EncGlyph(v), back |-> NormGlyph(v), back1 |-> v]]
   ELSE IF kind = "cffint" THEN
     [k |-> kind, id |-> idx, v |-> v, exp |-> OkExp(EncOperand(v), I(v.v))]
   ELSE IF kind = "dict" THEN
@@ -397,8 +619,17 @@ OtherOK ==
     [] kind = "ivs" -> IvsInFormat(V) /\ ~IvsRefuse(V) /\ DecIVS(EncIVS(V)) = [ok |-> TRUE, v |-> V]
     [] kind = "indexo" -> TRUE
 
+\* a glyph in a foreign packing: in format, packed as its flags say, of the size the fields add up to, and
+\* the writer's own packing of it decodes to the normalised value
+PackedOKc(v) ==
+  /\ GlyphInFormat(v) /\ ~GlyphRefuse(v) /\ PackedOk(v)
+  /\ LET ps == EncGlyphPacked(v) IN IsBytes(ps) /\ Len(ps) = PackedSize(v)
+  /\ DecGlyph(EncGlyph(v)) = NormGlyph(v)
+  /\ EncGlyph(NormGlyph(v)) = EncGlyph(v)
+
 CodecOK ==
   IF kind \in TableKinds THEN TableOK(kind, V)
+  ELSE IF kind = "glyphp" THEN PackedOKc(V)
   ELSE IF kind = "cffint" THEN IntOK(V)
   ELSE IF kind = "dict" THEN DictOKc(V)
   ELSE IF kind = "index" THEN IndexOK(V)
